@@ -58,7 +58,17 @@ def counted {α : Type} (parse : List String → Option (List α)) : List String
     | some k, some l => if l.length = k then some l else none
     | _, _ => none
 
-def step (st : St) (t : List String) : St × String :=
+/-- who validates and when: `own` = the snapshot is the validating node's own, `ts0` = the
+    snapshot carries no timestamp yet, `clock` = the validating node's wall clock -/
+structure Clk where
+  own : Bool
+  ts0 : Bool
+  clock : Nat
+
+def Clk.self (c : Clk) (snapNode : Nat) : Nat := if c.own then snapNode else snapNode + 1
+def Clk.snapTs (c : Clk) (ts : Nat) : Nat := if c.ts0 then 0 else ts
+
+def stepC (c : Clk) (st : St) (t : List String) : St × String :=
   match t with
   | ["reset"] => (empty, "ok")
   | "world" :: e :: g :: "|" :: rest =>
@@ -88,13 +98,13 @@ def step (st : St) (t : List String) : St × String :=
   | "pledge" :: p :: ts :: fin :: rest =>
     match hashNat p, u64? ts, flag fin, parseTx rest with
     | some p, some ts, some fin, some tx =>
-      let (d, l) := validatePledge st.env st.lock p ts fin tx
+      let (d, l) := validatePledgeSnap (c.self p) c.clock st.env st.lock p (c.snapTs ts) fin tx
       ({ st with lock := l }, showD d)
     | _, _, _, _ => (st, "bad-op")
   | "cancel" :: ts :: fin :: rest =>
     match u64? ts, flag fin, parseTx rest with
     | some ts, some fin, some tx =>
-      let (d, l) := validateCancel st.env st.lock ts fin tx
+      let (d, l) := validateCancelSnap (c.self 1) c.clock st.env st.lock 1 (c.snapTs ts) fin tx
       ({ st with lock := l }, showD d)
     | _, _, _ => (st, "bad-op")
   | "accept" :: ex :: iid :: itx :: hs :: round :: ts :: fut :: fin :: canon :: rest =>
@@ -106,14 +116,24 @@ def step (st : St) (t : List String) : St × String :=
         | some i, some x => some (some ⟨i, x, 0, .pledging⟩)
         | _, _ => none
       match info with
-      | some info => (st, showD (validateAccept st.env ⟨ex, info, hs⟩ round ts fut fin canon tx))
+      | some info => (st, showD (validateAcceptSnap (c.self 1) c.clock st.env ⟨ex, info, hs⟩ round 1 (c.snapTs ts) fut fin canon tx))
       | none => (st, "bad-op")
     | _, _, _, _, _, _, _, _ => (st, "bad-op")
   | "remove" :: p :: ts :: fin :: canon :: rest =>
     match hashNat p, u64? ts, flag fin, canonNat canon, parseTx rest with
-    | some p, some ts, some fin, some canon, some tx => (st, showD (validateRemove st.env p ts fin canon tx))
+    | some p, some ts, some fin, some canon, some tx => (st, showD (validateRemoveSnap (c.self p) c.clock st.env p (c.snapTs ts) fin canon tx))
     | _, _, _, _, _ => (st, "bad-op")
   | _ => (st, "bad-op")
+
+/-- `clk <own> <ts0> <clock> <op …>` runs `op` as validated by a node whose clock shows `clock`;
+    a bare op is a timestamped snapshot of another node -/
+def step (st : St) (t : List String) : St × String :=
+  match t with
+  | "clk" :: o :: z :: ck :: inner =>
+    match flag o, flag z, u64? ck with
+    | some o, some z, some ck => stepC ⟨o, z, ck⟩ st inner
+    | _, _, _ => (st, "bad-op")
+  | _ => stepC ⟨false, false, 0⟩ st t
 
 def run : IO Unit := runLoop empty step
 
